@@ -22,4 +22,10 @@ type Convergen interface {
 // :convergen
 type Healthy interface {
 	Fine(*Src) *Dst
+	// WithArgs passes two additional arguments on to its hooks.
+	// :@H1@
+	WithArgs(src *Src, n int, v interface{}) *Dst
+	// Blank has an additional argument nobody named.
+	// :@H2@
+	Blank(src *Src, _ int) *Dst
 }
